@@ -2010,6 +2010,11 @@ func (cs *State) addVote(vote *types.Vote, peerID p2p.ID) (added bool, err error
 			return
 		}
 
+		if cs.LastCommit == nil {
+			// initial height: there is no previous commit this precommit could extend
+			return
+		}
+
 		added, err = cs.LastCommit.AddVote(vote)
 		if !added {
 			return
